@@ -64,8 +64,10 @@ StartStep(e) ==
 MakeStep(e) ==
   LET d == [proc |-> e.proc, kind |-> e.kind, fam |-> e.fam, tz |-> e.tz, sig |-> e.sig, wx |-> e.wx, obs |-> e.obs,
             dq |-> SeqSet(e.dq), fullcal |-> e.fullcal] IN
-  Res(<< <<"DataObjectConstructed", e.out = "ok">>,
-         <<"CallerFramesUntouched", e.out = "ok" => (Has(e.proj.x, e.d) /\ e.proj.x[e.d].h = e.ext_before)>>,
+  \* (entry forms "naive" - an index without a timezone - and "notemp" - no temperature column - are malformed on purpose: the
+  \*  constructor may refuse them, but a refusal, like a success, leaves the frame the caller handed over as it was)
+  Res(<< <<"DataObjectConstructed", e.out = "ok" \/ e.entry \in {"naive", "notemp"}>>,
+         <<"CallerFramesUntouched", Has(e.proj.x, e.d) /\ e.proj.x[e.d].h = e.ext_before>>,
          <<"MakeLeavesOthersAlone", ModelsSame(prev, e.proj, {}) /\ DataSame(prev, e.proj, {e.d}) /\ ExtSame(prev, e.proj, {e.d})>> >>,
       model, IF e.out = "ok" THEN Put(data, e.d, d) ELSE data, store, interp)
 
